@@ -151,6 +151,9 @@ class FoldedData:
         self._period = period
         self._dm = dm
         self._accel = accel
+        # values the cube was folded with: all shifts are relative to these
+        self._dm_fold = dm
+        self._period_fold = period
         self._check_input()
         self._tph_shifts = np.zeros(self.nsubints, dtype=np.int32)
         self._fph_shifts = np.zeros(self.nsubbands, dtype=np.int32)
@@ -298,7 +301,7 @@ class FoldedData:
         self._period = period
 
     def _get_dmdelays(self, newdm: float) -> np.ndarray:
-        delta_dm = newdm - self.dm
+        delta_dm = newdm - self._dm_fold
         if delta_dm == 0:
             drifts = -1 * self._fph_shifts
             self._fph_shifts.fill(0)
@@ -307,7 +310,7 @@ class FoldedData:
         freqs = (
             np.arange(self.nsubbands, dtype=np.float64) * chan_width + self.header.fch1
         )
-        tsamp = self.period / self.nbins
+        tsamp = self._period_fold / self.nbins
         drifts = params.compute_dmdelays(
             freqs,
             delta_dm,
@@ -321,10 +324,10 @@ class FoldedData:
 
     def _get_pdelays(self, newperiod: float) -> np.ndarray:
         dbins = (
-            (newperiod / self._period - 1)
+            (newperiod / self._period_fold - 1)
             * self.header.tobs
             * self.nbins
-            / self._period
+            / self._period_fold
         )
         if dbins == 0:
             drifts = -1 * self._tph_shifts
